@@ -1367,14 +1367,19 @@ func (sc *serverConn) handleHeaderFrame(strm *Stream, fr *FrameHeader) error {
 		case bytes.Equal(k, StringContentType):
 			req.Header.SetContentTypeBytes(v)
 		case bytes.Equal(k, StringContentLength):
-			if n, perr := parseUint(v); perr == nil {
-				if sc.maxRequestBodySize > 0 && n > sc.maxRequestBodySize {
-					return NewResetStreamError(EnhanceYourCalm, "request body is too large")
-				}
-
-				strm.contentLength = n
-				strm.hasContentLength = true
+			n, perr := parseUint(v)
+			if perr != nil {
+				// https://httpwg.org/specs/rfc7540.html#rfc.section.8.1.2.6
+				return NewResetStreamError(ProtocolError, "invalid content-length")
 			}
+
+			if sc.maxRequestBodySize > 0 && n > sc.maxRequestBodySize {
+				return NewResetStreamError(EnhanceYourCalm, "request body is too large")
+			}
+
+			strm.contentLength = n
+			strm.hasContentLength = true
+
 			req.Header.AddBytesKV(k, v)
 		default:
 			req.Header.AddBytesKV(k, v)
